@@ -727,6 +727,176 @@ def elif_leg(res, rng, n):
                 ld.close()
 
 
+TMP_VIEWS = {"tmp": (64, False), "stmp": (64, True), "wtmp": (32, False),
+             "swtmp": (32, True)}
+
+
+def tmp_gen(rng):
+    """a program that uses scratch registers (e.tmp / e.stmp / e.wtmp /
+    e.swtmp, as the library's own devices do) one after the other, each
+    loaded from a variable and then the left operand of comparisons - alone,
+    with Else, inside & | ~; a one-bit variable assigned from a condition in
+    between goes through e.wtmp behind the scenes"""
+    blocks = []
+    for _ in range(rng.randint(2, 4)):
+        if rng.random() < 0.2:
+            blocks.append(dict(view=None, k=rng.choice([0, 7, 1000])))
+            continue
+        view = rng.choice(list(TMP_VIEWS))
+        signed = TMP_VIEWS[view][1]
+        stmts = []
+        for _ in range(rng.randint(1, 3)):
+            c = (lambda: rng.choice([-5000, -10, -3, -1, 0, 1, 7, 10, 1000])
+                 if signed else rng.choice([0, 1, 7, 10, 1000]))
+            kind = rng.choice(["cmp", "cmp", "range", "notor", "var"])
+            stmts.append(dict(kind=kind, op=rng.choice(CMP), c1=c(), c2=c(),
+                              has_else=rng.random() < 0.6))
+        blocks.append(dict(view=view, stmts=stmts))
+    return dict(tmp_leg=True, blocks=blocks)
+
+
+def tmp_case(desc, inputs, res):
+    from .. import kern, prog
+    from ebpfcat.arraymap import ArrayMap
+    from ebpfcat.ebpf import LocalVar
+    from ebpfcat.xdp import XDP
+    ops = {"==": lambda x, y: x == y, "!=": lambda x, y: x != y,
+           "<": lambda x, y: x < y, "<=": lambda x, y: x <= y,
+           ">": lambda x, y: x > y, ">=": lambda x, y: x >= y}
+    m = ArrayMap()
+    # sources / right operands per view
+    ns = {"license": "GPL", "m": m, "out": m.globalVar("Q"),
+          "a_tmp": m.globalVar("Q"), "b_tmp": m.globalVar("Q"),
+          "a_stmp": m.globalVar("q"), "b_stmp": m.globalVar("q"),
+          "a_wtmp": m.globalVar("I"), "b_wtmp": m.globalVar("I"),
+          "a_swtmp": m.globalVar("i"), "b_swtmp": m.globalVar("i"),
+          "flag": LocalVar((3, 1))}
+
+    def conds(e, V, st, b):
+        o = st["op"]
+
+        def cmp_(x, op, y):
+            return {"==": x == y, "!=": x != y, "<": x < y, "<=": x <= y,
+                    ">": x > y, ">=": x >= y}[op]
+        if st["kind"] == "cmp":
+            return cmp_(V, o, st["c1"])
+        if st["kind"] == "var":
+            return cmp_(V, o, b)
+        if st["kind"] == "range":
+            return (V > st["c1"]) & (V < st["c2"])
+        return ~(V >= st["c1"]) | (V == st["c2"])
+
+    def truth(v, st, b):
+        if st["kind"] == "cmp":
+            return ops[st["op"]](v, st["c1"])
+        if st["kind"] == "var":
+            return ops[st["op"]](v, b)
+        if st["kind"] == "range":
+            return st["c1"] < v < st["c2"]
+        return (not v >= st["c1"]) or v == st["c2"]
+
+    def program(self):
+        e = self
+        e.out = 0
+        bit = 0
+        for blk in desc["blocks"]:
+            if blk["view"] is None:
+                e.flag = e.b_swtmp > blk["k"]
+                with e.flag:
+                    e.out += 1 << bit
+                bit += 1
+                continue
+            view = blk["view"]
+            with getattr(e, view):
+                setattr(e, view, getattr(e, "a_" + view))
+                for st in blk["stmts"]:
+                    c = conds(e, getattr(e, view), st,
+                              getattr(e, "b_" + view))
+                    if st["has_else"]:
+                        with c as Else:
+                            e.out += 1 << bit
+                        with Else:
+                            e.out += 2 << bit
+                    else:
+                        with c:
+                            e.out += 1 << bit
+                    bit += 2
+        e.out += 1 << 62
+        e.r0 = 2
+        e.exit()
+    ns["program"] = program
+
+    def expected(vals):
+        ret = 0
+        bit = 0
+        for blk in desc["blocks"]:
+            if blk["view"] is None:
+                if vals["b_swtmp"] > blk["k"]:
+                    ret += 1 << bit
+                bit += 1
+                continue
+            view = blk["view"]
+            for st in blk["stmts"]:
+                t = truth(vals["a_" + view], st, vals["b_" + view])
+                if t:
+                    ret += 1 << bit
+                elif st["has_else"]:
+                    ret += 2 << bit
+                bit += 2
+        return ret + (1 << 62)
+    with kern.session() as sess:
+        try:
+            e = type("VfTmp", (XDP,), ns)()
+            ld = prog.Loaded(e, sess)
+            ld.load()
+        except Exception as ex:
+            res.case([desc], nontrivial=True)
+            res.violation("unexplained:scratch-register-program-not-"
+                          "generated-or-loaded",
+                          f"{type(ex).__name__}: {str(ex)[-300:]}",
+                          case=dict(desc, inputs=inputs))
+            return
+        try:
+            res.count("scratch_register_programs")
+            for vals in inputs:
+                for k, v in vals.items():
+                    setattr(e, k, v)
+                ld.run_k(bytes(64))
+                res.case([desc, sorted(vals.items())], nontrivial=True)
+                res.count("scratch_register_runs")
+                got, want = e.out, expected(vals)
+                if got != want:
+                    res.violation(
+                        "unexplained:scratch-register-condition",
+                        f"blocks taken {got:#x}, selected by the conditions "
+                        f"{want:#x} (inputs {vals})",
+                        case=dict(desc, inputs=[vals]))
+                    return
+        finally:
+            ld.close()
+
+
+def tmp_leg(res, rng, n):
+    for _ in range(n):
+        desc = tmp_gen(rng)
+        inputs = []
+        for _ in range(10):
+            inputs.append(dict(
+                a_tmp=rng.choice([0, 1, 7, 9, 1000, 5000, (1 << 63) + 5,
+                                  (1 << 64) - 1]),
+                b_tmp=rng.choice([0, 3, 1000, (1 << 63) + 4, (1 << 64) - 2]),
+                a_stmp=rng.choice([0, 1, 7, 9, 10, 5000, -1, -3, -4, -9, -10,
+                                   -5000, -(1 << 63), (1 << 63) - 1]),
+                b_stmp=rng.choice([0, 3, 2000, -2, -20000]),
+                a_wtmp=rng.choice([0, 1, 7, 9, 1000, (1 << 31) + 5,
+                                   (1 << 32) - 1]),
+                b_wtmp=rng.choice([0, 3, 1000, (1 << 31) + 4]),
+                a_swtmp=rng.choice([0, 1, 7, 9, 10, 5000, -1, -3, -4, -9,
+                                    -10, -5000, -(1 << 31), (1 << 31) - 1]),
+                b_swtmp=rng.choice([0, 3, 2000, -2, -20000])))
+        tmp_case(desc, inputs, res)
+
+
 def run_shard(params):
     res = Result()
     rng = random.Random(params["seed"] * 100019 + params["shard"])
@@ -736,6 +906,8 @@ def run_shard(params):
         case = gen_case(rng, params["depth"])
         check_case(case, res, use_v=(i % 3 == 0))
     exit_leg(res, rng, max(4, params["n"] // 25))
+    tmp_leg(res, random.Random(rng.getrandbits(32)),
+            max(6, params["n"] // 12))
     return res
 
 
@@ -754,5 +926,9 @@ def finalize(res, tier, seed):
 
 def replay(v):
     res = Result()
+    if v["case"].get("tmp_leg"):
+        c = dict(v["case"])
+        tmp_case(c, c.pop("inputs"), res)
+        return res
     check_case(v["case"], res)
     return res
